@@ -29,12 +29,13 @@ example : HdrOk [0x04, 0x82, 0x00, 0x03] ⟨.universal, false, 4⟩ (.definite 3
 theorem ber_compat : Compat berProfile Generated.berDecByType :=
   { bool := fun _ => rfl, seg := fun _ => ⟨rfl, by decide⟩ }
 
-/-- **every valid BER form decodes to the value** (types without ANY and REAL).  For every
+/-- **every valid BER form decodes to the value** (types without ANY; REAL in binary form, compared as
+    the number it denotes).  For every
     well-formed type, every value, every tree `x` that the basic encoding rules allow as an encoding
     of the value — any length forms, definite or indefinite at each level, primitive or segmented
     (also nested) strings, any non-zero octet for TRUE, SET members in any order, SET OF elements
     in any order, DEFAULT members present or absent — followed by any octets: the BER decoder
-    returns the value (equal up to the order of SET OF elements) and exactly the octets that follow. -/
+    returns the value (equal up to the order of SET OF elements and the representation of REALs) and exactly the octets that follow. -/
 theorem every_ber_form_decodes (t : Ty) (v : Val) (x : TLV) (tail : Bytes)
     (hp : t.plain = true) (hw : t.WF = true) (hx : x.WF) (hb : IsBer berProfile t v x) :
     ∃ w, decodeOne Generated.berDecByType t (x.ser ++ tail) = .ok (w, tail) ∧ VEq t v w := by
